@@ -64,6 +64,7 @@ func init() {
 		c02CloseOnce(c)
 		c02Deadline(c)
 		c02TimeUnits(c)
+		c02SessionLink(c, "C02/SESSION-LINK")
 		// "no sequence hangs the server": the request/reply plumbing always answers and the
 		// write-queue error callback cannot deadlock against the session goroutine
 		onErrorCancelRule(c, "C02/ONERROR-CANCEL")
